@@ -1,5 +1,7 @@
 package c02
 
+import "strings"
+
 // The case space: entry names (token sequences), archive shapes, destinations, backends, limits modes.
 // Every case has a global index (its position in the fixed enumeration order below); shard k of n runs
 // the cases with index % n == k. A case is fully described by its caseSpec (that is what a replay stores).
@@ -91,15 +93,27 @@ type caseSpec struct {
 	name       []byte
 }
 
+// target is a destination form on a backend.
+type target struct{ dest, backend string }
+
+func product(dests []string, backends ...string) []target {
+	var ts []target
+	for _, d := range dests {
+		for _, b := range backends {
+			ts = append(ts, target{d, b})
+		}
+	}
+	return ts
+}
+
 // block is a full product of its dimensions.
 type block struct {
 	id         string
 	names      [][]byte
 	shapes     []string
 	outers     [][]string // nil = not nested
-	dests      []string
-	destExists []bool
-	backends   []string
+	targets    []target
+	destExists bool
 	limits     []string
 }
 
@@ -108,7 +122,7 @@ func (b *block) size() int64 {
 	if o == 0 {
 		o = 1
 	}
-	return int64(len(b.names)) * int64(len(b.shapes)) * int64(o) * int64(len(b.dests)) * int64(len(b.destExists)) * int64(len(b.backends)) * int64(len(b.limits))
+	return int64(len(b.names)) * int64(len(b.shapes)) * int64(o) * int64(len(b.targets)) * int64(len(b.limits))
 }
 
 // each calls f for every case of the block whose global index belongs to the shard; base is the global index
@@ -122,16 +136,12 @@ func (b *block) each(base int64, shard, n int, f func(c *caseSpec)) {
 	for _, name := range b.names {
 		for _, sh := range b.shapes {
 			for _, ou := range outers {
-				for _, d := range b.dests {
-					for _, de := range b.destExists {
-						for _, be := range b.backends {
-							for _, li := range b.limits {
-								if int(i%int64(n)) == shard {
-									f(&caseSpec{Index: i, Block: b.id, name: name, Shape: sh, Outer: ou, Dest: d, DestExists: de, Backend: be, Limits: li})
-								}
-								i++
-							}
+				for _, tg := range b.targets {
+					for _, li := range b.limits {
+						if int(i%int64(n)) == shard {
+							f(&caseSpec{Index: i, Block: b.id, name: name, Shape: sh, Outer: ou, Dest: tg.dest, DestExists: b.destExists, Backend: tg.backend, Limits: li})
 						}
+						i++
 					}
 				}
 			}
@@ -140,63 +150,80 @@ func (b *block) each(base int64, shard, n int, f func(c *caseSpec)) {
 }
 
 type bound struct {
-	MainTokensAllDests int      `json:"main_alphabet_max_tokens_all_destinations"`
-	MainTokens         int      `json:"main_alphabet_max_tokens"`
-	DeepTokens         int      `json:"deep_alphabet_max_tokens"`
-	VariantTokens      int      `json:"variants_max_tokens"`
-	VariantDeepTokens  int      `json:"variants_deep_alphabet_max_tokens"`
-	Nest1Tokens        int      `json:"nested_depth1_max_tokens"`
-	Nest2Tokens        int      `json:"nested_depth2_max_tokens"`
-	AllDests           []string `json:"all_destinations"`
-	CoreDests          []string `json:"core_destinations"`
+	AllFormsTokens    int      `json:"max_tokens_on_all_destination_forms"`
+	FullTokens        int      `json:"max_tokens_on_core_destinations_all_shapes"`
+	MainTokens        int      `json:"main_alphabet_max_tokens"`
+	DeepTokens        int      `json:"deep_alphabet_max_tokens"`
+	VariantTokens     int      `json:"variants_and_nested_main_alphabet_max_tokens"`
+	VariantDeepTokens int      `json:"variants_and_nested_deep_alphabet_max_tokens"`
+	AllDests          []string `json:"all_destination_forms"`
+	NestedOuters      []string `json:"nested_outer_entry_chains"`
 }
 
 // space builds the blocks of a tier.
 //
-// Unzip starts with destination = filepath.Clean(destination); the seven destination forms therefore collapse to the
-// three "core" forms {absolute, "d", "."} right away. Names up to MainTokensAllDests tokens are run on all seven forms and
-// both backends; the longest names and the deep sub-alphabet on the core forms, where "." (under which Unzip refuses
-// every name that is not the destination itself) is run on the in-memory backend only.
+// Unzip starts with destination = filepath.Clean(destination): the seven destination forms collapse to the three
+// "core" forms {absolute, "d", "."} right away, and under "." Unzip refuses every name that is not the destination
+// itself. The blocks spend the budget accordingly (every block is a full product of the dimensions it lists):
+//
+//	all-forms : names <= AllFormsTokens            x {file, dir, after-dir} x 7 destination forms x {os, mem}
+//	full      : names <= FullTokens (the rest)     x {file, dir, after-dir} x {abs, d} x {os, mem}, "." on mem
+//	long      : names <= MainTokens (the rest)     x {file, dir} x {abs, d} on mem; {file} x {abs, d} on os   (thorough)
+//	            names <= MainTokens (the rest)     x {file, dir} x abs x {os, mem}, d on mem                  (quick)
+//	deep      : deep sub-alphabet <= DeepTokens    x {file, dir, after-dir} x abs x {os, mem}, d on mem
+//	shapes    : variant names x {deflate, symlink, after-symlink} x {abs, d} x {os, mem}
+//	limits    : variant names x {file, dir} x {abs, d} x {os, mem} x {non-recursive limits, recursive limits}
+//	dest-missing : variant names x {file, dir} x {abs, abs/, d, d/../d} x {os, mem}, destination absent
+//	nested1/2 : variant names inside an inner archive at depth 1 / 2, recursive limits, {file, dir} x {abs, d} x {os, mem}
+//
+// variant names = main alphabet <= VariantTokens plus deep sub-alphabet <= VariantDeepTokens.
 func space(thorough bool) ([]*block, bound) {
-	core := []string{destAbs, destRel, destDot}
 	all := []string{destAbs, destAbsSlash, destRel, destDotRel, destUpRel, destDot, destEmpty}
-	bd := bound{MainTokensAllDests: 3, MainTokens: 4, DeepTokens: 6, VariantTokens: 3, VariantDeepTokens: 5, Nest1Tokens: 3, Nest2Tokens: 2, AllDests: all, CoreDests: core}
+	bd := bound{AllFormsTokens: 2, FullTokens: 3, MainTokens: 4, DeepTokens: 6, VariantTokens: 2, VariantDeepTokens: 5, AllDests: all}
 	if thorough {
-		bd = bound{MainTokensAllDests: 4, MainTokens: 5, DeepTokens: 7, VariantTokens: 3, VariantDeepTokens: 6, Nest1Tokens: 4, Nest2Tokens: 3, AllDests: all, CoreDests: core}
+		bd = bound{AllFormsTokens: 3, FullTokens: 4, MainTokens: 5, DeepTokens: 7, VariantTokens: 3, VariantDeepTokens: 6, AllDests: all}
 	}
-	both := []string{"os", "mem"}
-	yes := []bool{true}
-
 	seen := map[string]struct{}{"": {}}
-	shortNames := enumNames(tokensT, 1, bd.MainTokensAllDests, seen, [][]byte{{}}) // the empty name first
-	longNames := enumNames(tokensT, bd.MainTokensAllDests+1, bd.MainTokens, seen, nil)
+	allFormsNames := enumNames(tokensT, 1, bd.AllFormsTokens, seen, [][]byte{{}}) // the empty name first
+	fullNames := enumNames(tokensT, bd.AllFormsTokens+1, bd.FullTokens, seen, nil)
+	longNames := enumNames(tokensT, bd.FullTokens+1, bd.MainTokens, seen, nil)
 	deepNames := enumNames(tokensDeep, 1, bd.DeepTokens, seen, nil) // only what the main alphabet has not produced
 
-	// variant / nested blocks: the main alphabet to fewer tokens, plus the deep sub-alphabet
-	pick := func(maxTok int) [][]byte {
-		s := map[string]struct{}{}
-		names := enumNames(tokensT, 1, maxTok, s, nil)
-		return enumNames(tokensDeep, 1, bd.VariantDeepTokens, s, names)
-	}
-	variantNames := pick(bd.VariantTokens)
-	nest1Names := pick(bd.Nest1Tokens)
-	nest2Names := pick(bd.Nest2Tokens)
-	absRel := []string{destAbs, destRel}
-	dot := []string{destDot}
-	memOnly := []string{"mem"}
+	vs := map[string]struct{}{}
+	variantNames := enumNames(tokensDeep, 1, bd.VariantDeepTokens, vs, enumNames(tokensT, 1, bd.VariantTokens, vs, nil))
 
+	absRel := []string{destAbs, destRel}
 	mainShapes := []string{shapeFile, shapeDir, shapeAfterDir}
-	blocks := []*block{
-		{id: "main-short", names: shortNames, shapes: mainShapes, dests: all, destExists: yes, backends: both, limits: []string{limNone}},
-		{id: "main-long", names: longNames, shapes: mainShapes, dests: absRel, destExists: yes, backends: both, limits: []string{limNone}},
-		{id: "main-long-dot", names: longNames, shapes: mainShapes, dests: dot, destExists: yes, backends: memOnly, limits: []string{limNone}},
-		{id: "deep", names: deepNames, shapes: mainShapes, dests: absRel, destExists: yes, backends: both, limits: []string{limNone}},
-		{id: "deep-dot", names: deepNames, shapes: mainShapes, dests: dot, destExists: yes, backends: memOnly, limits: []string{limNone}},
-		{id: "shapes", names: variantNames, shapes: []string{shapeDeflate, shapeSymlink, shapeAfterSymlink}, dests: []string{destAbs, destRel}, destExists: yes, backends: both, limits: []string{limNone}},
-		{id: "limits", names: variantNames, shapes: []string{shapeFile, shapeDir}, dests: []string{destAbs, destRel}, destExists: yes, backends: both, limits: []string{limFlat, limRecursive}},
-		{id: "dest-missing", names: variantNames, shapes: []string{shapeFile, shapeDir}, dests: []string{destAbs, destAbsSlash, destRel, destUpRel}, destExists: []bool{false}, backends: both, limits: []string{limNone}},
-		{id: "nested1", names: nest1Names, shapes: []string{shapeFile, shapeDir}, outers: [][]string{{"x.zip"}, {"a/x.zip"}, {".zip"}}, dests: []string{destAbs, destRel}, destExists: yes, backends: both, limits: []string{limRecursive}},
-		{id: "nested2", names: nest2Names, shapes: []string{shapeFile, shapeDir}, outers: [][]string{{"x.zip", "x.zip"}, {"a/x.zip", ".zip"}}, dests: []string{destAbs, destRel}, destExists: yes, backends: both, limits: []string{limRecursive}},
+	fileDir := []string{shapeFile, shapeDir}
+	none := []string{limNone}
+	rec := []string{limRecursive}
+	// nested: the inner archive's destination is <dir of the nested file>/<its stem>; ".zip" and ".jar" have an empty
+	// stem, so the innermost destination is the top-level destination again (one parent reference away from outside).
+	outers1 := [][]string{{"x.zip"}, {"a/x.zip"}, {".zip"}}
+	outers2 := [][]string{{"x.zip", "x.zip"}, {".zip", ".jar"}}
+	for _, o := range append(append([][]string{}, outers1...), outers2...) {
+		bd.NestedOuters = append(bd.NestedOuters, strings.Join(o, " > "))
 	}
+
+	longTargets := append(product([]string{destAbs}, "os", "mem"), target{destRel, "mem"})
+	blocks := []*block{
+		{id: "all-forms", names: allFormsNames, shapes: mainShapes, targets: product(all, "os", "mem"), destExists: true, limits: none},
+		{id: "full", names: fullNames, shapes: mainShapes, targets: append(product(absRel, "os", "mem"), target{destDot, "mem"}), destExists: true, limits: none},
+	}
+	if thorough {
+		blocks = append(blocks,
+			&block{id: "long-mem", names: longNames, shapes: fileDir, targets: product(absRel, "mem"), destExists: true, limits: none},
+			&block{id: "long-os", names: longNames, shapes: []string{shapeFile}, targets: product(absRel, "os"), destExists: true, limits: none})
+	} else {
+		blocks = append(blocks, &block{id: "long", names: longNames, shapes: fileDir, targets: longTargets, destExists: true, limits: none})
+	}
+	blocks = append(blocks,
+		&block{id: "deep", names: deepNames, shapes: mainShapes, targets: longTargets, destExists: true, limits: none},
+		&block{id: "shapes", names: variantNames, shapes: []string{shapeDeflate, shapeSymlink, shapeAfterSymlink}, targets: product(absRel, "os", "mem"), destExists: true, limits: none},
+		&block{id: "limits", names: variantNames, shapes: fileDir, targets: product(absRel, "os", "mem"), destExists: true, limits: []string{limFlat, limRecursive}},
+		&block{id: "dest-missing", names: variantNames, shapes: fileDir, targets: product([]string{destAbs, destAbsSlash, destRel, destUpRel}, "os", "mem"), destExists: false, limits: none},
+		&block{id: "nested1", names: variantNames, shapes: fileDir, outers: outers1, targets: product(absRel, "os", "mem"), destExists: true, limits: rec},
+		&block{id: "nested2", names: variantNames, shapes: fileDir, outers: outers2, targets: product(absRel, "os", "mem"), destExists: true, limits: rec},
+	)
 	return blocks, bd
 }
